@@ -246,6 +246,4 @@ func lemmaHeaderRoundTrip(c *codec, h *Header) (*Header, error) {
 //@   requires parts: f.Header != nil && len(f.Body) <= 2147483647
 //@   ensures header: result1 == nil ==> result0 != nil && result0.Header != nil && result0.Header.IsResponse == f.Header.IsResponse && result0.Header.Version == f.Header.Version && result0.Header.Flags == f.Header.Flags && result0.Header.StreamId == f.Header.StreamId && result0.Header.OpCode == f.Header.OpCode && Z(result0.Header.BodyLength) == Z(len(f.Body))
 //@   ensures bodylen: result1 == nil ==> len(result0.Body) == len(f.Body)
-// (that the body bytes come back unchanged is the composition of EncodeRawFrame's body clause and DecodeRawFrame's bytes
-// clause over the buffer; stated on both functions, not re-derived here: the chained quantifier instantiation is not
-// stable across solver runs)
+//@   ensures body: result1 == nil ==> forall k int :: 0 <= k && k < len(f.Body) ==> result0.Body[k] == f.Body[k]
